@@ -44,6 +44,10 @@ impl GossipState {
     }
 
     pub async fn join(&mut self, namespace: NamespaceId, bootstrap: Vec<EndpointId>) -> Result<()> {
+        #[cfg(feature = "verif-hooks")]
+        if verif::joins_disabled() {
+            return Ok(());
+        }
         match self.active.entry(namespace) {
             hash_map::Entry::Occupied(mut entry) => {
                 if !bootstrap.is_empty() {
@@ -127,6 +131,25 @@ impl GossipState {
             }
         }
         Ok(())
+    }
+}
+
+/// Verification hook: let `GossipState::join` return at once, so that a never-run live actor can
+/// be taken through `start_sync` / `join_peers` (coordination state, stored peers, dial
+/// decisions) without any swarm traffic.
+#[cfg(feature = "verif-hooks")]
+pub mod verif {
+    use std::sync::atomic::{AtomicBool, Ordering};
+
+    static JOINS_DISABLED: AtomicBool = AtomicBool::new(false);
+
+    /// Enable or disable joining gossip topics.
+    pub fn set_joins_disabled(disabled: bool) {
+        JOINS_DISABLED.store(disabled, Ordering::SeqCst);
+    }
+
+    pub(super) fn joins_disabled() -> bool {
+        JOINS_DISABLED.load(Ordering::SeqCst)
     }
 }
 
